@@ -2437,7 +2437,16 @@ static ASTNode *parse_if_expression(Stage1Parser *p) {
         /* Check for 'else if' - parse as nested if expression */
         Token *next = current_token(p);
         if (next && next->token_type == TOKEN_IF) {
+            /* 'else if' recurses without passing through a block or an expression: an else-if
+             * chain nests one level per link and needs the same bound as other nesting */
+            if (++p->recursion_depth > MAX_RECURSION_DEPTH) {
+                parser_error(p, next->line, next->column, "Error at line %d, column %d: 'else if' chain longer than the nesting maximum (%d).\n",
+                        next->line, next->column, MAX_RECURSION_DEPTH);
+                p->recursion_depth--;
+                return NULL;
+            }
             else_branch = parse_if_expression(p);
+            p->recursion_depth--;
         } else {
             else_branch = parse_block(p);
         }
